@@ -74,7 +74,11 @@ pub fn judge_raw(input: &[u8], acc: &mut Acc) {
     }
 }
 
-const ELEMS: [(&str, fn() -> KP); 24] = [
+const ELEMS: [(&str, fn() -> KP); 28] = [
+    ("\"\\udbff\\udfff\"", || KP::QuotedName("\u{10FFFF}".into())),
+    ("\"\\ud800\\udc00\"", || KP::QuotedName("\u{10000}".into())),
+    ("\"\\ud83c\\udf95x\"", || KP::QuotedName("\u{1F395}x".into())),
+    ("\"\\u00e9\\n\"", || KP::QuotedName("é\n".into())),
     ("007", || KP::Index(7)),
     ("00000000007", || KP::Index(7)),
     ("-00000000000", || KP::Index(0)),
